@@ -90,8 +90,15 @@ def write_cmd_line_file(build_dir: str, options: SharedCMDOptions) -> None:
 
     config['options'] = {str(k): str(v) for k, v in options.cmd_line_options.items()}
     config['properties'] = {k: repr(v) for k, v in properties.items()}
-    with open(filename, 'w', encoding='utf-8') as f:
+    _write_config_atomically(config, filename)
+
+def _write_config_atomically(config: CmdLineFileParser, filename: str) -> None:
+    # Never leave a truncated or half written file behind if we get
+    # interrupted: the next reconfigure would fail to parse it.
+    tempfilename = filename + '~'
+    with open(tempfilename, 'w', encoding='utf-8') as f:
         config.write(f)
+    os.replace(tempfilename, filename)
 
 def update_cmd_line_file(build_dir: str, options: SharedCMDOptions) -> None:
     filename = get_cmd_line_file(build_dir)
@@ -109,8 +116,7 @@ def update_cmd_line_file(build_dir: str, options: SharedCMDOptions) -> None:
         elif keystr in config['options']:
             del config['options'][keystr]
 
-    with open(filename, 'w', encoding='utf-8') as f:
-        config.write(f)
+    _write_config_atomically(config, filename)
 
 def format_cmd_line_options(options: SharedCMDOptions) -> str:
     cmdline = ['-D{}={}'.format(str(k), v) for k, v in options.cmd_line_options.items()]
